@@ -30,9 +30,9 @@ import (
 )
 
 type c08Resume struct {
-	GapMs  int  `json:"gap_ms"`  // pause before resuming
-	CutMs  int  `json:"cut_ms"`  // cut this exchange after so many ms (-1: read to the end)
-	Back   int  `json:"back"`    // 0: resume from the last id received; n>0: from the id n events earlier (replay)
+	GapMs int `json:"gap_ms"` // pause before resuming
+	CutMs int `json:"cut_ms"` // cut this exchange after so many ms (-1: read to the end)
+	Back  int `json:"back"`   // 0: resume from the last id received; n>0: from the id n events earlier (replay)
 }
 
 type c08Spec struct {
@@ -77,7 +77,7 @@ func genC08(r *vh.Rand) c08Spec {
 
 // recStore wraps an EventStore and records, per (session, stream), what was appended.
 type recStore struct {
-	inner mcp.EventStore
+	inner  mcp.EventStore
 	mu     sync.Mutex
 	log    map[string][][]byte
 	opened []string
@@ -138,7 +138,9 @@ func (s *recStore) After(ctx context.Context, sid, stream string, idx int) iter.
 		}
 	}
 }
-func (s *recStore) SessionClosed(ctx context.Context, sid string) error { return s.inner.SessionClosed(ctx, sid) }
+func (s *recStore) SessionClosed(ctx context.Context, sid string) error {
+	return s.inner.SessionClosed(ctx, sid)
+}
 func (s *recStore) truth(sid, stream string) [][]byte {
 	s.mu.Lock()
 	defer s.mu.Unlock()
@@ -146,11 +148,11 @@ func (s *recStore) truth(sid, stream string) [][]byte {
 }
 
 type c08Exchange struct {
-	Kind   string         `json:"kind"`
-	LEID   string         `json:"last_event_id,omitempty"`
-	Status int            `json:"status"`
-	Events []vhm.SSEvent  `json:"events"`
-	EOF    bool           `json:"eof"`
+	Kind   string        `json:"kind"`
+	LEID   string        `json:"last_event_id,omitempty"`
+	Status int           `json:"status"`
+	Events []vhm.SSEvent `json:"events"`
+	EOF    bool          `json:"eof"`
 }
 
 func TestVerifC08(t *testing.T) {
@@ -161,7 +163,7 @@ func TestVerifC08(t *testing.T) {
 			"then 1..4 resumes with Last-Event-ID = last id received (or an id up to 3 events earlier), each after a pause of 0..24 ms and cut again after 0..39 ms; protocol 2025-06-18 (no priming) or 2025-11-25 (priming); 1/6 with a 2-5 kB store so that early events are purged; " +
 			"finally every id ever received is resumed to the end. non-trivial: >=1 cut exchange followed by a resume that replayed >=1 event and >=1 message written while no exchange was attached. distinct = distinct (version, stream, K, cut/resume pattern)",
 		MinNontrivial: 100,
-		Assumptions: []string{"only event ids previously issued on that stream are presented", "a resume that hits purged events may be refused (HTTP 400) instead of replayed", "cuts coinciding with an emission instant may or may not include that event; the oracle follows what was actually received"},
+		Assumptions:   []string{"only event ids previously issued on that stream are presented", "a resume that hits purged events may be refused (HTTP 400) instead of replayed", "cuts coinciding with an emission instant may or may not include that event; the oracle follows what was actually received"},
 	}
 	vh.Run(t, cfg, func(c *vh.Case) {
 		spec := genC08(c.R)
